@@ -2,6 +2,7 @@
 #include "vh_rt.h"
 #include "vh_methods.h"
 #include "vh_grammar.h"
+#include <limits.h>
 #include <crypt.h>
 #include <stdlib.h>
 
@@ -222,15 +223,24 @@ preferred (void)
       unsigned char rb[64];
       for (int i = 0; i < 64; i++)
         rb[i] = (unsigned char) (f * 37 + i * (f + 3) + (f == 1 ? 0xff : 0));
-      for (unsigned long cnt = 0; cnt <= 11; cnt += (cnt == 0 ? 1 : 5))
+      /* every count 0..40 (accepted and refused by the preferred method alike), then decades and the type's limits; the
+         entropy sizes include the refused ones (errno must agree too) */
+      static const unsigned long bigc[] = { 99, 100, 1000, 5000, 65536, 4294967295UL, 4294967296UL, ULONG_MAX - 1, ULONG_MAX };
+      for (int ck = 0; ck <= 40 + (int) (sizeof bigc / sizeof *bigc); ck++)
         {
+          unsigned long cnt = ck <= 40 ? (unsigned long) ck : bigc[ck - 41];
           char a[CRYPT_GENSALT_OUTPUT_SIZE], b[CRYPT_GENSALT_OUTPUT_SIZE];
-          int nrb = f % 3 == 0 ? 16 : f % 3 == 1 ? 32 : 64;
+          static const int nrbs[] = { 16, 32, 64, 0, 8, 15, 17 };
+          int nrb = nrbs[f % 7];
+          errno = 0;
           char *ra = crypt_gensalt_rn (0, cnt, (const char *) rb, nrb, a, sizeof a);
+          int ea = errno;
+          errno = 0;
           char *rb2 = crypt_gensalt_rn (p, cnt, (const char *) rb, nrb, b, sizeof b);
+          int eb = errno;
           vh_stat ("evaluations", 2);
           vh_stat ("null_prefix_cases", 1);
-          if ((!ra) != (!rb2) || (ra && strcmp (a, b)))
+          if ((!ra) != (!rb2) || (ra && strcmp (a, b)) || (!ra && ea != eb))
             {
               snprintf (sig, sizeof sig, "null-prefix-differs-from-preferred");
               vh_viol (sig, "{\"count\":%lu,\"fill\":%d,\"null_prefix\":%s,\"preferred_prefix\":%s,\"replay\":\"p\"}", cnt, f, vh_jstr (ra ? a : 0), vh_jstr (rb2 ? b : 0));
